@@ -10,6 +10,7 @@ import (
 	"github.com/cbeuw/Cloak/internal/vnet"
 	"github.com/cbeuw/Cloak/internal/vref"
 	"github.com/cbeuw/Cloak/internal/vrt"
+	"github.com/cbeuw/Cloak/internal/vrt/time"
 	"github.com/cbeuw/Cloak/internal/vx"
 )
 
@@ -90,5 +91,55 @@ func init() {
 		_ = vrt.Cur
 		rep.States = rep.Executions
 		return rep
+	}})
+}
+
+// C10 driver: a client whose configuration names a proxy method the server does not serve (an outdated
+// ProxyMethod on an authorised user). Such a connection is refused and relayed to the cover site, whose
+// bytes are of course not Cloak's; but if the client's handshake *succeeds* - it then holds what it
+// takes for a Cloak session - everything on that connection must be the record stream C10 describes.
+// The cover site here answers with plain bytes, so anything of it that reaches a client holding a
+// session breaks the stream.
+func init() {
+	vx.Register(&vx.Scenario{Name: "wire.refused", Prop: "C10", Run: func(c *vx.Ctx) *vx.Report {
+		sc := &vrt.Scenario{
+			Opt:      vrt.Options{Delay: true, HorizonNs: int64(120 * time.Second)},
+			Classify: deadlockIs("no-deadlock"),
+			Main: func() {
+				uid := uidOf(0)
+				r := newE2ERig(newMemManager(), [][]byte{uid}, nil)
+				vrt.Go("cover-site", func() {
+					wc, err := r.webL.Accept()
+					if err != nil {
+						return
+					}
+					b := make([]byte, 4096)
+					wc.Read(b)
+					wc.Write([]byte("HTTP/1.1 400 Bad Request\r\nConnection: close\r\n\r\nthis is not TLS"))
+					wc.Read(b) // until the relay goes away
+					wc.Close()
+				})
+				r.serve(1)
+				cs := hsCase{Transport: "direct", Browser: c.P("browser", "firefox"), Method: "plain", ProxyMethod: c.P("method", "outdated"), SID: 9, ServerName: "example.com"}
+				remote, auth := r.clientCfgFor(cs, uid)
+				conn, err := r.dialer.Dial("tcp", "server:443")
+				if err != nil {
+					vrt.Fail("harness", "dial: %v", err)
+				}
+				conn.SetReadDeadline(time.Now().Add(20 * time.Second))
+				_, herr := remote.Transport.CreateTransport().Handshake(conn, auth)
+				time.Sleep(time.Second)
+				if herr == nil {
+					pair := strings.TrimSuffix(conn.(*vnet.Conn).Name, "/a")
+					if w := checkWire(r, pair, "example.com"); w != "" {
+						vrt.Fail("well-formed-tls-stream", "a client naming proxy method %q (not served) completed the handshake; on its connection: %s", cs.ProxyMethod, w)
+					}
+					vrt.Fail("well-formed-tls-stream", "a client naming proxy method %q, which the server does not serve, was answered with a Cloak reply (and relayed to the cover site as well)", cs.ProxyMethod)
+				}
+				conn.Close()
+				vrt.Observe("refused")
+			},
+		}
+		return vx.RunSched(c, sc, nil)
 	}})
 }
